@@ -47,6 +47,8 @@ type c14View struct {
 	cur c14Pt
 	// liCut: located instructions added to a cut (CutLI)
 	liCut map[*cut]map[c14LI]bool
+	// inCarried: nesting depth of carriedField (a carrier reached through another carrier)
+	inCarried int
 }
 
 type c14Pt struct {
@@ -699,13 +701,11 @@ func (v *c14View) objOf(base ssa.Value) *ssa.Alloc {
 // carriedField: fa addresses field f of a struct object created in the view;
 // returns every value stored into that field by functions of the view.
 func (v *c14View) carriedField(fa *ssa.FieldAddr) ([]ssa.Value, bool) {
-	if _, isParam := fa.X.(*ssa.Parameter); !isParam {
-		if _, isAlloc := fa.X.(*ssa.Alloc); !isAlloc {
-			if cellOf(fa.X) == nil {
-				return nil, false
-			}
-		}
+	if v.inCarried > 3 {
+		return nil, false
 	}
+	v.inCarried++
+	defer func() { v.inCarried-- }()
 	obj := v.objOf(fa.X)
 	if obj == nil {
 		return nil, false
